@@ -496,6 +496,15 @@ func (interp *Interpreter) ast(f ast.Node) (string, *node, error) {
 			st.push(addChild(&root, anc, pos, arrayType, aNop), nod)
 
 		case *ast.AssignStmt:
+			// A parenthesized blank identifier is a valid operand: `(_) = x` is `_ = x`.
+			for i, e := range a.Lhs {
+				for p, ok := e.(*ast.ParenExpr); ok; p, ok = e.(*ast.ParenExpr) {
+					e = p.X
+				}
+				if id, ok := e.(*ast.Ident); ok && id.Name == "_" {
+					a.Lhs[i] = id
+				}
+			}
 			var act action
 			var kind nkind
 			if len(a.Lhs) > 1 && len(a.Rhs) == 1 {
